@@ -46,6 +46,9 @@ type Harness struct {
 	Strat func(n *model.Node) Strategy
 	// ListMode: 0 plain []interface{}, 1 accessor lists (ListResolver / AnyResolver.Nth), 2 alternate by node id
 	ListMode int
+	// AllOcc: a planted fault fires at EVERY call with its (node, field, key), not only at the planned occurrence; what a
+	// request sees then does not depend on how many other requests the harness has served (concurrent workloads)
+	AllOcc bool
 
 	mu    sync.Mutex
 	occ   map[model.CallKey]int
@@ -210,7 +213,11 @@ func (h *Harness) resolve(n *model.Node, st Strategy, field *ggql.Field, args ma
 		canon = map[string]interface{}{}
 	}
 	h.Calls = append(h.Calls, Call{Key: base, Strategy: st, Raw: raw, Args: canon, NilArgs: args == nil})
-	flt, bad := h.Plan[base]
+	look := base
+	if h.AllOcc {
+		look.Occ = 0
+	}
+	flt, bad := h.Plan[look]
 	h.mu.Unlock()
 	if bad && flt.Kind == "panic" {
 		// application code that panics: the caller of ggql recovers; whatever ggql was in the middle of must not stick
